@@ -6,8 +6,9 @@ from .core import SV, Unsupported
 
 
 class LoopCtx:
-    def __init__(self, ex, st, kname, iterable):
+    def __init__(self, ex, st, kname, iterable, pre=None):
         self.ex, self.st = ex, st
+        self.pre = pre if pre is not None else HeapView(st.heap)  # heap when the loop was entered
         self._kname = kname
         self.iterable = iterable
         self.h = HeapView(st.heap)
